@@ -14,6 +14,9 @@
 //	h.store <digest> <payload> | h.fault get <digest> <code> | h.fault fm <k> <code>
 //	h.get <digest> | h.getc <parent> <child> | h.fm <digests>
 //
+// A component may be anything without '/', ',', ':', '=', blanks ("-" as a
+// component is fine, only the one-component name "-" is not expressible).
+//
 // The line sent to the model for "d.fm" additionally carries the order in which
 // the composite called its backends (Go map iteration order, observed).
 package c19
@@ -439,6 +442,17 @@ func rewrite(e cfgEntry, n string) string {
 	return strings.Join(append(append([]string{}, comps(e.add)...), rest...), "/")
 }
 
+// probes are the (function, hash, size) parts the patcher oracle puts in front of every name.
+var probes = []struct {
+	fn   remoteexecution.DigestFunction_Value
+	hash string
+	size int64
+}{
+	{remoteexecution.DigestFunction_MD5, "8b1a9953c4611296a827abf8c47804d7", 5},
+	{remoteexecution.DigestFunction_SHA1, "0000000000000000000000000000000000000000", 0},
+	{remoteexecution.DigestFunction_SHA256, "1234567890123456789012345678901234567890123456789012345678901234", 9223372036854775807},
+}
+
 func readBuf(b buffer.Buffer) string {
 	data, err := b.ToByteSlice(1000)
 	if err != nil {
@@ -536,6 +550,17 @@ func (s *sut) exec(line string) (string, string) {
 				if back := ofDigest(p.UnpatchDigest(p.PatchDigest(mkDigest(d)))); back != d {
 					s.fail(whatUnpatch, "%q: unpatch(patch(%s)) = %s", line, d, back)
 				}
+				// every digest function, hash and size: only the instance name changes
+				for _, pr := range probes {
+					x := digest.MustNewDigest(i, pr.fn, pr.hash, pr.size)
+					y := p.PatchDigest(x)
+					if y != digest.MustNewDigest(want, pr.fn, pr.hash, pr.size) {
+						s.fail(whatPatch, "%q: PatchDigest(%s) = %s, want instance name %q and the rest unchanged", line, x, y, want)
+					}
+					if z := p.UnpatchDigest(y); z != x {
+						s.fail(whatUnpatch, "%q: unpatch(patch(%s)) = %s", line, x, z)
+					}
+				}
 			}
 			return line, nameTok(a) + " " + nameTok(b.name)
 		}
@@ -544,6 +569,12 @@ func (s *sut) exec(line string) (string, string) {
 			want := strings.Join(append(append([]string{}, comps(o)...), comps(i)[len(nc):]...), "/")
 			if b != (dg{want, 3}) {
 				s.fail(whatUnpatch, "%q: UnpatchDigest=%s want %q", line, b, want)
+			}
+			for _, pr := range probes {
+				x := digest.MustNewDigest(i, pr.fn, pr.hash, pr.size)
+				if y := p.UnpatchDigest(x); y != digest.MustNewDigest(want, pr.fn, pr.hash, pr.size) {
+					s.fail(whatUnpatch, "%q: UnpatchDigest(%s) = %s, want instance name %q and the rest unchanged", line, x, y, want)
+				}
 			}
 		}
 		return line, nameTok(b.name) + " " + nameTok(b.name)
@@ -976,15 +1007,45 @@ func runCase(run *hx.Run, model *hx.Model, name string, script []string, report 
 
 // ---------------------------------------------------------------- generators
 
-var prefixPool = []string{"", "a", "ab", "a/b", "a/b/c", "b"}
-var namePool = []string{"", "a", "ab", "a/b", "a/b/c", "b", "a/b/c/d", "ab/c", "a/bc", "b/a", "c", "a/ab", "abc", "a/b/cd", "b/a/b"}
-var addPool = []string{"", "x", "x/y", "a", "b", "a/b", "ab"}
+// A vocabulary is the name material of one case. The classic one has string- but not
+// component-prefixes; the dashed one has components containing '-', digits, hex letters, '_', '.'
+// (characters that also occur in the packed string form "<function>-<hash>-<size>-<instance name>"
+// of a Digest), a component that is just "-", and names that look like packed digests.
+type vocab struct {
+	prefixes []string   // six prefixes: exhaustive subsets
+	names    []string   // names looked up / carried by digests
+	adds     []string   // add_instance_name_prefix values
+	rests    [][]string // continuations below a prefix
+	deep     []string   // focus names of the hierarchical cases
+}
+
+var classic = vocab{
+	prefixes: []string{"", "a", "ab", "a/b", "a/b/c", "b"},
+	names:    []string{"", "a", "ab", "a/b", "a/b/c", "b", "a/b/c/d", "ab/c", "a/bc", "b/a", "c", "a/ab", "abc", "a/b/cd", "b/a/b"},
+	adds:     []string{"", "x", "x/y", "a", "b", "a/b", "ab"},
+	rests:    [][]string{nil, nil, {"q"}, {"q", "r"}, {"a"}, {"b", "a"}, {"ab"}, {"qq", "r", "s"}},
+	deep:     []string{"a/b/c/d", "a/b/c", "b/a/b", "ab/c", "a/b/cd"},
+}
+
+var dashed = vocab{
+	prefixes: []string{"", "team", "team-a", "team-a/ci", "a-", "1-2"},
+	names: []string{"", "team", "team-a", "team-ab", "team-a/ci", "team-a/ci/linux-x86_64", "team-a/c", "team/a", "a-", "a-/b", "a-/-",
+		"-/a", "1-2", "1-2/3", "1", "qa/linux-qa/64", "3-00000000000000000000000000000003-13-a", "team-a/3-0f-1", "a_b.c/d-e"},
+	adds:  []string{"", "team-shared", "x-1/y", "-/z", "9-f", "team-a", "a-"},
+	rests: [][]string{nil, nil, {"q-"}, {"linux-x86_64"}, {"-"}, {"q", "r-s"}, {"3-00-1"}, {"a-", "b"}},
+	deep:  []string{"team-a/ci/linux-x86_64", "a-/-", "qa/linux-qa/64", "team-a/3-0f-1", "1-2/3"},
+}
+
+var vocabs = []vocab{classic, dashed}
+
+func pickVocab(r *hx.Rand) vocab { return vocabs[r.Intn(len(vocabs))] }
 
 func pick(r *hx.Rand, pool []string) string { return pool[r.Intn(len(pool))] }
 
-func genTrie(r *hx.Rand) []string {
+func genTrie(r *hx.Rand, v vocab) []string {
 	var s []string
 	reg := map[string]bool{}
+	prefixPool, namePool := v.prefixes, v.names
 	pool := prefixPool
 	if r.Chance(1, 3) {
 		pool = namePool
@@ -1026,14 +1087,13 @@ func genTrie(r *hx.Rand) []string {
 	return s
 }
 
-var restPool = [][]string{nil, nil, {"q"}, {"q", "r"}, {"a"}, {"b", "a"}, {"ab"}, {"qq", "r", "s"}}
-
 func join(p string, rest []string) string {
 	return strings.Join(append(append([]string{}, comps(p)...), rest...), "/")
 }
 
-func genPatch(r *hx.Rand) []string {
+func genPatch(r *hx.Rand, v vocab) []string {
 	var s []string
+	namePool, addPool, restPool := v.names, v.adds, v.rests
 	for i := r.Range(3, 12); i > 0; i-- {
 		o, n := pick(r, namePool), pick(r, namePool)
 		if r.Chance(1, 4) {
@@ -1049,7 +1109,8 @@ func genPatch(r *hx.Rand) []string {
 	return s
 }
 
-func genCfg(r *hx.Rand) []cfgEntry {
+func genCfg(r *hx.Rand, v vocab) []cfgEntry {
+	prefixPool, namePool, addPool := v.prefixes, v.names, v.adds
 	pool := prefixPool
 	if r.Chance(1, 5) {
 		pool = namePool
@@ -1085,7 +1146,7 @@ func cfgLine(es []cfgEntry) string {
 
 var faultCodes = []int{int(codes.Unavailable), int(codes.Internal), int(codes.NotFound), int(codes.InvalidArgument), int(codes.ResourceExhausted)}
 
-func genDigests(r *hx.Rand, k, hashes int) []dg {
+func genDigests(r *hx.Rand, namePool []string, k, hashes int) []dg {
 	var ds []dg
 	base := pick(r, namePool)
 	for i := 0; i < k; i++ {
@@ -1098,8 +1159,9 @@ func genDigests(r *hx.Rand, k, hashes int) []dg {
 	return sortDgs(ds)
 }
 
-func genDemux(r *hx.Rand) []string {
-	es := genCfg(r)
+func genDemux(r *hx.Rand, v vocab) []string {
+	namePool := v.names
+	es := genCfg(r, v)
 	s := []string{cfgLine(es)}
 	sim := &sut{entries: es}
 	hashes := r.Range(2, 6)
@@ -1128,7 +1190,7 @@ func genDemux(r *hx.Rand) []string {
 		}
 		switch x := r.Intn(100); {
 		case x < 50:
-			ds := genDigests(r, r.PickInt(0, 1, 2, 3, 4, 6, 8, 12), hashes)
+			ds := genDigests(r, namePool, r.PickInt(0, 1, 2, 3, 4, 6, 8, 12), hashes)
 			if r.Chance(3, 4) { // mostly sets in which every name resolves
 				var known []dg
 				for _, d := range ds {
@@ -1154,11 +1216,11 @@ func genDemux(r *hx.Rand) []string {
 	return s
 }
 
-func genHier(r *hx.Rand) []string {
+func genHier(r *hx.Rand, v vocab) []string {
 	var s []string
 	hashes := r.Range(1, 4)
 	payload := 500
-	deep := []string{"a/b/c/d", "a/b/c", "b/a/b", "ab/c", "a/b/cd"}
+	namePool, deep := v.names, v.deep
 	focus := pick(r, deep)
 	for i := r.Range(0, 8); i > 0; i-- {
 		n := pick(r, namePool)
@@ -1197,7 +1259,7 @@ func genHier(r *hx.Rand) []string {
 		case x < 45:
 			s = append(s, fmt.Sprintf("h.getc %s %s", dg{n, r.Intn(hashes)}, dg{n, r.Intn(hashes)}))
 		case x < 90:
-			ds := genDigests(r, r.PickInt(0, 1, 2, 3, 5, 8, 12), hashes)
+			ds := genDigests(r, namePool, r.PickInt(0, 1, 2, 3, 5, 8, 12), hashes)
 			if r.Chance(1, 2) {
 				for _, a := range ancestors(focus) {
 					if r.Chance(1, 2) {
@@ -1215,23 +1277,47 @@ func genHier(r *hx.Rand) []string {
 }
 
 func genScript(r *hx.Rand) (string, []string) {
+	v := pickVocab(r)
+	tag := "classic-"
+	if len(v.names) == len(dashed.names) {
+		tag = "dashed-"
+	}
 	switch x := r.Intn(100); {
 	case x < 30:
-		return "trie", genTrie(r)
-	case x < 40:
-		return "patch", genPatch(r)
-	case x < 72:
-		return "demux", genDemux(r)
+		return tag + "trie", genTrie(r, v)
+	case x < 42:
+		return tag + "patch", genPatch(r, v)
+	case x < 73:
+		return tag + "demux", genDemux(r, v)
 	case x < 95:
-		return "hier", genHier(r)
+		return tag + "hier", genHier(r, v)
 	default:
-		return "mixed", append(append(append(genTrie(r), genDemux(r)...), genHier(r)...), genPatch(r)...)
+		return tag + "mixed", append(append(append(genTrie(r, v), genDemux(r, pickVocab(r))...), genHier(r, v)...), genPatch(r, pickVocab(r))...)
 	}
 }
 
 // ---------------------------------------------------------------- exhaustive small scopes
 
-func exhaustive(handle func(string, []string), run *hx.Run) {
+func exhaustive(handle0 func(string, []string), run *hx.Run) {
+	count := 0
+	for vi, v := range vocabs {
+		handle := func(name string, script []string) {
+			if vi > 0 {
+				name = strings.Replace(name, "exh/", fmt.Sprintf("exh/v%d/", vi), 1)
+			}
+			handle0(name, script)
+		}
+		prefixPool, namePool, addPool, restPool := v.prefixes, v.names, v.adds, v.rests
+		leaves := []string{v.deep[0], v.deep[1]}
+		if vi == 0 {
+			leaves = []string{"a/b/c", "ab/c"}
+		}
+		exhaustiveVocab(handle, &count, prefixPool, namePool, addPool, restPool, leaves)
+	}
+	run.Extra("exhaustive_cases", count)
+}
+
+func exhaustiveVocab(handle func(string, []string), countp *int, prefixPool, namePool, addPool []string, restPool [][]string, leaves []string) {
 	count := 0
 	// every subset of the six prefixes, every name queried; then every single removal.
 	for mask := 0; mask < 1<<len(prefixPool); mask++ {
@@ -1308,7 +1394,7 @@ func exhaustive(handle func(string, []string), run *hx.Run) {
 		}
 	}
 	// every placement of one object across the ancestors of a/b/c (and one fault position).
-	for _, leaf := range []string{"a/b/c", "ab/c"} {
+	for _, leaf := range leaves {
 		anc := ancestors(leaf)
 		for mask := 0; mask < 1<<len(anc); mask++ {
 			for fault := -1; fault < len(anc); fault++ {
@@ -1326,13 +1412,13 @@ func exhaustive(handle func(string, []string), run *hx.Run) {
 					s = append(s, "h.get "+dg{a, 1}.String(), "h.fm "+dg{a, 1}.String())
 					all = append(all, dg{a, 1}, dg{a, 2})
 				}
-				s = append(s, "h.fm "+listStr(sortDgs(append(all, dg{"b", 1}, dg{"a/bc", 1}))), fmt.Sprintf("h.getc %s %s", dg{leaf, 1}, dg{leaf, 1}))
+				s = append(s, "h.fm "+listStr(sortDgs(append(all, dg{namePool[5], 1}, dg{namePool[8], 1}))), fmt.Sprintf("h.getc %s %s", dg{leaf, 1}, dg{leaf, 1}))
 				handle(fmt.Sprintf("exh/hier/%s/%d/%d", leaf, mask, fault), s)
 				count++
 			}
 		}
 	}
-	run.Extra("exhaustive_cases", count)
+	*countp += count
 }
 
 // ---------------------------------------------------------------- the test
@@ -1349,6 +1435,8 @@ func TestC19(t *testing.T) {
 	run.SetRule("scripts over the instance-name trie (Set/Remove histories with lookups of 15 names), the patcher, " +
 		"demultiplexing composites built by the real configuration code over 1..5 prefixes from {\"\",a,ab,a/b,a/b/c,b} " +
 		"(and others) with rewrites, and the hierarchical decorator over placements across ancestors, with fault injection; " +
+		"every generator and exhaustive scope also over a second vocabulary whose components contain '-', digits, hex letters, '_', '.' " +
+		"(team-a, linux-x86_64, a-, a component \"-\", names shaped like packed digests); " +
 		"a case is non-trivial when it has >= 3 routed operations/lookups and >= 8 lines; distinct by script hash; " +
 		"plus exhaustive small scopes (all prefix subsets, all single removals, all prefix pairs, all placements)")
 
@@ -1388,7 +1476,7 @@ func TestC19(t *testing.T) {
 		handle("corpus/"+name, script)
 	}
 	exhaustive(handle, run)
-	n := run.Scale(25000, 400000)
+	n := run.Scale(20000, 400000)
 	for i := 0; i < n && run.Findings() < 20; i++ {
 		r := hx.NewRand(run.Seed, "C19", i)
 		kind, script := genScript(r)
